@@ -283,7 +283,25 @@ class ExtrasMixin:
         return self.new_list(out)
 
     def super_(self, frame):
-        raise E.Unsupported("super()")
+        f = frame
+        while f is not None and "self" not in f.locals:
+            f = f.parent
+        if f is None or frame.ci is None:
+            raise E.Unsupported("super() outside a method")
+        return VSuper(f.locals["self"], frame.ci)
+
+    def super_getattr(self, sv, attr):
+        for b in sv.ci.bases:
+            bn = b.split(".")[-1].split("[")[0]
+            bc = self.repo.find_class(bn, sv.ci.mod.relpath)
+            if bc is None:
+                continue
+            m = self.repo.lookup_method(bc, attr)
+            if m is not None:
+                return VPartial(VFunc(m[0], None, m[1], m[1].mod.relpath, attr), sv.recv)
+        if attr == "__init__":
+            return VPartial(None, sv.recv)        # object.__init__: nothing to do
+        raise E.Unsupported(f"super().{attr}: no base method in the repository")
 
     def deepcopy(self, v, memo=None):
         memo = {} if memo is None else memo
